@@ -149,6 +149,36 @@ impl WorldB {
                     } else {
                         self.nonce_table.insert(key, h);
                     }
+                    // C17 oracle 1b: the keystream itself. Where the plaintext is known (payloads; a client's keep-alive is eight
+                    // zero bytes) ciphertext xor plaintext gives the first keystream bytes, a function of key and nonce alone:
+                    // two different packet numbers that share them were sealed with one nonce, however the header numbers them
+                    let n = (bytes[0] >> 4) as usize;
+                    let known: Option<[u8; 8]> = match (ptype, payload) {
+                        (T_PAYLOAD, Some(pix)) if self.payloads[pix].bytes.len() >= 8 => self.payloads[pix].bytes[..8].try_into().ok(),
+                        (T_KEEPALIVE, _) if dir == 0 => Some([0u8; 8]),
+                        _ => None,
+                    };
+                    if let (Some(pt), true) = (known, bytes.len() >= 1 + n + 8 + 16 && dir < 2) {
+                        obs.count("oracle.C17.keystream_unique");
+                        let mut ks = [0u8; 8];
+                        for k in 0..8 {
+                            ks[k] = bytes[1 + n + k] ^ pt[k];
+                        }
+                        match self.ks_table.get(&(t, dir, scope, ks)) {
+                            Some(prev) if *prev != seq => {
+                                obs.violate(
+                                    "C17",
+                                    "keystream-reused-under-one-key",
+                                    &format!("{}-{}", if dir == 0 { "client" } else { "server" }, tname(ptype)),
+                                    format!("token {} dir {}: packet numbers {} and {} were sealed with the same keystream", t, dir, prev, seq),
+                                );
+                            }
+                            Some(_) => {}
+                            None => {
+                                self.ks_table.insert((t, dir, scope, ks), seq);
+                            }
+                        }
+                    }
                     // C16 monitor: decode with the known key, re-encode, compare
                     self.roundtrip_monitor(&bytes, t, dir == 1, obs);
                 }
@@ -357,7 +387,9 @@ impl WorldB {
         let valid_response_model = ptype == T_RESPONSE
             && !bogus
             && self.pend_model.get(&src).map(|p| Some(p.0) == rec_tid).unwrap_or(false)
-            && rec_tid.map(|t| self.ledger[ix].challenge_for == Some((self.tokens[t].id, self.incarnation))).unwrap_or(false);
+            && rec_tid.map(|t| self.ledger[ix].challenge_for == Some((self.tokens[t].id, self.incarnation))).unwrap_or(false)
+            // (half-open entries are dropped by the first update after their token's expiry second: nothing is left to answer for)
+            && rec_tid.map(|t| self.sv_ms / 1000 <= self.tokens[t].expire_ts + 1).unwrap_or(true);
         if ptype == T_REQUEST && !bogus {
             if let Some(t) = rec_tid {
                 if self.sv_ms / 1000 < self.tokens[t].expire_ts {
